@@ -267,7 +267,10 @@ func genCfg(g *RNG, meta *MetaTable, class string) CfgSpec {
 		shape := ""
 		must := true
 		if class == "illtyped" {
-			shape = pick(g, []string{"scalar_int", "scalar_string", "scalar_bool", "array", "array_of_tables", "wrong_field_type"})
+			shape = pick(g, []string{"scalar_int", "scalar_string", "scalar_bool", "array", "array_of_tables", "wrong_field_type", "global_not_table"})
+			if shape == "global_not_table" && !meta.ByName[L].Probe {
+				shape = "scalar_int" // only the probes' option struct refers to a global section
+			}
 		} else {
 			shape = pick(g, []string{"float_for_int", "huge_int", "unknown_key", "inline_table", "nested_table"})
 			must = false
@@ -277,6 +280,12 @@ func genCfg(g *RNG, meta *MetaTable, class string) CfgSpec {
 			}
 		}
 		switch shape {
+		case "global_not_table":
+			// the higher-scoped section the lint's options refer to is not a table (the lint's own section may be fine)
+			fmt.Fprintf(&top, "%s = %s\n", probeGlobalSection, pick(g, []string{"7", "\"text\"", "true", "[1, 2]"}))
+			if g.Chance(0.5) {
+				tables.WriteString(legalSection(g, L, fields))
+			}
 		case "scalar_int":
 			fmt.Fprintf(&top, "%s = %d\n", L, g.Intn(100))
 		case "scalar_string":
